@@ -11,6 +11,7 @@ import (
 	"io"
 	"strings"
 	"sync"
+	"sync/atomic"
 )
 
 type FaultSpec struct {
@@ -29,6 +30,14 @@ func (injectedNetError) Timeout() bool   { return true }
 func (injectedNetError) Temporary() bool { return true }
 
 var faultKinds = []string{"", "deadline", "canceled", "eof", "temporary"}
+
+var injectedErrN atomic.Int64
+
+// rotatingInjectedErr hands out the error kinds in turn: a fault site that does
+// not choose a kind still exercises all of them over a run.
+func rotatingInjectedErr() error {
+	return faultErr(faultKinds[int(injectedErrN.Add(1))%len(faultKinds)])
+}
 
 func faultErr(kind string) error {
 	switch kind {
